@@ -1,7 +1,7 @@
 (* Properties_C04.v — C04: saved files are structurally well-formed (objects
    without segments: proved; objects with segments: modelled and tied by the
    correspondence run, partial). *)
-From ElfioV Require Import Bytes Mem Stream SectionData Strings Elfio Table Loader Layout Writer Ostream_proofs Layout_proofs Writer_proofs.
+From ElfioV Require Import Bytes Mem Stream SectionData Strings Elfio Table Loader Layout Writer Ostream_proofs Layout_proofs Writer_proofs Segment_proofs.
 Local Open Scope N_scope.
 
 (* The layout step of save() for an object without segments (any sections, any
@@ -66,6 +66,54 @@ Theorem C04_layout_delivers :
                    e_shentsize h' = e_shentsize h0.
 Proof. exact noseg_ranges_disjoint. Qed.
 Print Assumptions C04_layout_delivers.
+
+(* ---- segments: the basic case.  A segment (not PT_PHDR, offset not fixed by a
+   previous load) all of whose members are allocated data sections the writer
+   addresses itself.  Its file offset is congruent to its virtual address modulo
+   its alignment; the members follow one another, each aligned, inside
+   [p_offset, p_offset + p_filesz), each at the same distance from the segment
+   start in the file as in memory; the memory size covers the file size. *)
+Theorem C04_segment_of_auto_members :
+  forall h g secs gen pos bound ms,
+    let idxs := g_sections g in
+    let align := if 0 <? p_align g then p_align g else 1 in
+    lenN idxs < 2 ^ 16 -> idxs <> [] ->
+    g_offset_set g = false -> p_type g <> PT_PHDR ->
+    NoDup idxs -> Forall2 (fun i s => nth_optN secs i = Some s) idxs ms ->
+    Forall auto_member ms -> Forall (fun s => bound <= 2 ^ xw (s_cls s)) ms ->
+    (forall i, In i idxs -> nth_optN gen i = Some false) ->
+    bound <= 2 ^ 64 -> bound <= 2 ^ xw (g_cls g) -> p_align g < 2 ^ 63 ->
+    p_vaddr g + pos + align + mbudget ms < bound ->
+    exists g' secs' gen' pos' seg_start,
+      layout_one_segment h g secs gen pos = Ok (g', secs', gen', pos', true) /\
+      pos <= seg_start /\ seg_start < pos + align /\
+      seg_start mod align = p_vaddr g mod align /\
+      p_offset g' = seg_start /\ p_vaddr g' = p_vaddr g /\
+      p_filesz g' = pos' - seg_start /\ p_filesz g' <= p_memsz g' /\
+      mchain g seg_start secs' idxs seg_start pos' /\
+      (forall j, ~ In j idxs -> nth_optN secs' j = nth_optN secs j) /\ lenN secs' = lenN secs.
+Proof. exact layout_one_segment_auto. Qed.
+Print Assumptions C04_segment_of_auto_members.
+
+Theorem C04_member_of_chain :
+  forall g ss secs' idxs lo hi i, mchain g ss secs' idxs lo hi -> In i idxs ->
+    exists s, nth_optN secs' i = Some s /\ lo <= sh_offset s /\ sh_offset s + sh_size s <= hi /\
+              sh_offset s mod eff_align s = 0 /\ sh_addr s - p_vaddr g = sh_offset s - ss /\ p_vaddr g <= sh_addr s.
+Proof. exact mchain_member. Qed.
+Print Assumptions C04_member_of_chain.
+
+(* non-vacuity: a PT_LOAD segment at 0x8048004, align 0x1000, with .text (align 16, 5 bytes) and .data (align 4, 3 bytes) *)
+Definition ms (i al sz : N) : section :=
+  with_index (with_flags (with_size (with_addralign (with_type (new_section C32) 1) al) sz) 2) i.
+Definition ex_seg : segment :=
+  seg_add_section_index (seg_add_section_index (seg_set (seg_set (seg_set (new_segment C32) GType 1) GVaddr 134512644) GAlign 4096) 1 16) 2 4.
+Example C04_segment_example :
+  exists g' secs' gen' pos',
+    layout_one_segment (new_header C32 LSB) ex_seg [ms 0 0 0; ms 1 16 5; ms 2 4 3] [false; false; false] 84 =
+      Ok (g', secs', gen', pos', true) /\
+    p_offset g' = 4100 /\ p_filesz g' = 23 /\ map sh_offset secs' = [0; 4112; 4120] /\ map sh_addr secs' = [0; 134512656; 134512664] /\
+    auto_member (ms 1 16 5).
+Proof. eexists _, _, _, _. split; [vm_compute; reflexivity|]. vm_compute. repeat split; try reflexivity; discriminate. Qed.
 
 (* non-vacuity: null section, 5 bytes aligned 1, 3 bytes aligned 8, no-bits aligned 16 *)
 Definition mk (i ty al sz : N) : section :=
